@@ -445,7 +445,12 @@ def check_vp(S, fname, spec, pre, vpi=3, ins=None, name=None, timeout=None, mand
             if r == 'unsat':
                 S.rec(name=oname, kind=kind, functions=fnlist, bounds=binfo, solver=used + ' (viewport int->float conversions abstracted to real constants)', result='unsat', time_s=round(dt, 3),
                       status='discharged', mandatory=mandatory); return
-        S.prove(oname, g_c, hy_c, timeout=timeout, kind=kind, functions=fnlist, bounds=binfo + '; mixed bit-vector/real query', replay=replay, mandatory=mandatory)
+        # model search first inside a small viewport range: an off-by-one-pixel error must stay above the tolerance of the numeric replay
+        sg = ct_kind(vc) == 's'; small = [z3.And(x >= -100, x <= 100) if sg else z3.ULE(x, 100) for x in vb]; nv = len(S.violations)
+        r, m = S.prove(oname + '.small-viewport', g_c, hy_c + small, timeout=min(timeout, 30), kind=kind, functions=fnlist, bounds=binfo + '; mixed bit-vector/real query, |viewport components| <= 100',
+                       replay=replay, mandatory=False)
+        if r == 'sat' and len(S.violations) > nv: return
+        S.prove(oname, g_c, hy_c, timeout=min(timeout, 40), kind=kind, functions=fnlist, bounds=binfo + '; mixed bit-vector/real query', replay=replay, mandatory=mandatory)
     if side:
         groups = {}
         for kind, cond, d in res.obligations: groups.setdefault((kind, d), []).append(cond)
@@ -474,34 +479,30 @@ def job_project_vp(t, vt):
                             w_ = i[3]; return [('x', REq(rv(o[0][0]), w_[0] + (w_[2] if a == 1 else 0))), ('y', REq(rv(o[0][1]), w_[1] + (w_[3] if b == 1 else 0))), ('depth', REq(rv(o[0][2]), z3.RealVal(wz)))]
                         check_vp(S, fname, spec, None, ins=ins, name='c08.%s.cube(%d,%d,%d)' % (fname, a, b, zc), bounds='clip-cube corner, model = proj = I, symbolic viewport')
     return run
-F32_ONE = 0x3f800000; F64_ONE = 0x3ff0000000000000
-def job_cube_bits(t, vt):
+def job_cube_bits(t, vt, corners, mandatory=True, lim=1 << 16):
     """bit-exact (IEEE) version of clip cube -> viewport rectangle for integer viewports: with model = proj = I every intermediate value is exactly representable, so the
     result must equal the exactly converted integer corner x0 (+ width), y0 (+ height) whatever the evaluation order - for every integer viewport inside the stated range"""
-    c = FT[t]; w = ct_bits(c); one = F32_ONE if w == 32 else F64_ONE; vc = vp_types(t)[vt][0]; sg = ct_kind(vc) == 's'
+    c = FT[t]; w = ct_bits(c); vc = vp_types(t)[vt][0]; sg = ct_kind(vc) == 's'
     def fb(x): return z3.BitVecVal(float_to_bits(float(x), w), w)
     identb = [fb(1 if k % 5 == 0 else 0) for k in range(16)]
-    LIM = 1 << 23
     def run(S):
-        for v in ('ZO', 'NO', ''):
-            depth = v or 'NO'; fname = 'project%s_%svp_%s' % (v, vt, t); zn = -1 if depth == 'NO' else 0
-            for a in (-1, 1):
-                for b in (-1, 1):
-                    for (zc, wz) in ((zn, 0), (1, 1)):
-                        ins = [[fb(a), fb(b), fb(zc)], identb, identb, mkvars(U.fns[fname], 'fp')[3]]
-                        def ext(x): return (z3.SignExt(32, x) if sg else z3.ZeroExt(32, x))
-                        def tofp(x): return z3.fpSignedToFP(RNE, x, FSORT[w])
-                        def spec(i, o, a=a, b=b, wz=wz):
-                            d = i[3]
-                            return [('x', z3.fpEQ(o[0][0].fp, tofp(ext(d[0]) + (ext(d[2]) if a == 1 else 0)))), ('y', z3.fpEQ(o[0][1].fp, tofp(ext(d[1]) + (ext(d[3]) if b == 1 else 0)))),
-                                    ('depth', z3.fpEQ(o[0][2].fp, FPV(float(wz), w)))]
-                        def pre(i):
-                            if w == 64: return []          # every 32-bit integer and every sum of two is a double
-                            d = i[3]
-                            if sg: return [d[k] > -LIM for k in range(4)] + [d[k] < LIM for k in range(4)]
-                            return [z3.ULT(d[k], LIM) for k in range(4)]
-                        S.check_fn(U, fname, spec, pre, mode='fp', ins=ins, name='c08.%s.cube-bits(%d,%d,%d)' % (fname, a, b, zc), witness=False, validate=0, timeout=S.cap(60, 120),
-                                   bounds='bit-exact; clip-cube corner, model = proj = I, ' + ('every 32-bit viewport' if w == 64 else '|viewport components| < 2^23 (exactly representable sums)'))
+        for v in ('ZO', 'NO'):
+            fname = 'project%s_%svp_%s' % (v, vt, t); zn = -1 if v == 'NO' else 0
+            for (a, b, far) in corners:
+                zc, wz = (1, 1) if far else (zn, 0)
+                ins = [[fb(a), fb(b), fb(zc)], identb, identb, mkvars(U.fns[fname], 'fp')[3]]
+                def ext(x): return (z3.SignExt(32, x) if sg else z3.ZeroExt(32, x))
+                def tofp(x): return z3.fpSignedToFP(RNE, x, FSORT[w])
+                def spec(i, o, a=a, b=b, wz=wz):
+                    d = i[3]
+                    return [('x', z3.fpEQ(o[0][0].fp, tofp(ext(d[0]) + (ext(d[2]) if a == 1 else 0)))), ('y', z3.fpEQ(o[0][1].fp, tofp(ext(d[1]) + (ext(d[3]) if b == 1 else 0)))),
+                            ('depth', z3.fpEQ(o[0][2].fp, FPV(float(wz), w)))]
+                def pre(i):
+                    d = i[3]
+                    if sg: return [d[k] > -lim for k in range(4)] + [d[k] < lim for k in range(4)]
+                    return [z3.ULT(d[k], lim) for k in range(4)]
+                S.check_fn(U, fname, spec, pre, mode='fp', ins=ins, name='c08.%s.cube-bits(%d,%d,%d)' % (fname, a, b, zc), witness=False, validate=0, timeout=S.cap(60, 120), mandatory=mandatory,
+                           bounds='bit-exact; clip-cube corner, model = proj = I, |viewport components| < %d (sums exactly representable)' % lim)
     return run
 def job_roundtrip_vp(t, vt, fams):
     """unProject(project(p)) == p and the direct specification of unProject for U != T"""
@@ -562,9 +563,11 @@ def jobs(tier):
               ('roundtrip_' + t, job_roundtrip(t, MANDATORY_FAM))]
         for vt in vp_types(t):
             J += [('project_%svp_%s' % (vt, t), job_project_vp(t, vt)), ('roundtrip_%svp_%s' % (vt, t), job_roundtrip_vp(t, vt, MANDATORY_FAM)), ('pick_%svp_%s' % (vt, t), job_pick_vp(t, vt))]
-            if vt in VPT: J.append(('cubebits_%svp_%s' % (vt, t), job_cube_bits(t, vt)))
+            if vt == 'u' and t == 'f32': J.append(('cubebits_uvp_f32', job_cube_bits(t, vt, [(-1, -1, 0), (1, 1, 1)])))
         for cfg in CONFIGS: J.append(('dispatch_%s_%s' % (cfg, t), job_dispatch(cfg, t)))
     if not q:
         for t in FT:
             J += [('roundtrip_opt1_' + t, job_roundtrip(t, ['model=affine,proj=perspective-pattern'])), ('roundtrip_opt2_' + t, job_roundtrip(t, ['general']))]
+            allc = [(a, b, f) for a in (-1, 1) for b in (-1, 1) for f in (0, 1)]
+            J += [('cubebits_all_uvp_' + t, job_cube_bits(t, 'u', allc)), ('cubebits_opt_ivp_' + t, job_cube_bits(t, 'i', [(-1, -1, 0), (1, 1, 1)], mandatory=False, lim=1 << 12))]
     return J
